@@ -680,8 +680,11 @@ def run_keyword_probe(sh):
   rng = sh.rng("keywords", sh.idx)
   mine = usable[sh.idx::16]          # every usable keyword in every run (16 shards)
   for kw in mine + ["plain_name"]:
-    for where in ("port", "wire", "block", "loopvar"):
-      decl = {"port": f"    s.{kw} = InPort(8)", "wire": f"    s.{kw} = Wire(8)\n    s.{kw} //= s.i", "block": "", "loopvar": ""}[where]
+    for where in ("port", "wire", "block", "loopvar", "wirelist", "portlist"):
+      decl = {"port": f"    s.{kw} = InPort(8)", "wire": f"    s.{kw} = Wire(8)\n    s.{kw} //= s.i", "block": "", "loopvar": "",
+              # lists, touched by connections only (no block mentions them)
+              "wirelist": f"    s.{kw} = [Wire(8) for _ in range(2)]\n    s.{kw}[0] //= s.i\n    s.{kw}[1] //= s.{kw}[0]\n    s.o2 = OutPort(8)\n    s.o2 //= s.{kw}[1]",
+              "portlist": f"    s.{kw} = [InPort(8) for _ in range(2)]\n    s.o2 = OutPort(8)\n    s.o2 //= s.{kw}[1]"}[where]
       blk = kw if where == "block" else "up"
       body = f"      for {kw} in range(8):\n        s.o[{kw}] @= s.i[{kw}]" if where == "loopvar" else \
              f"      s.o @= s.{kw if where in ('port', 'wire') else 'i'} + 1"
